@@ -134,12 +134,12 @@ func valueDesc(v ssa.Value) string {
 	case *ssa.UnOp:
 		if fa, ok := x.X.(*ssa.FieldAddr); ok {
 			st := fa.X.Type().Underlying().(*types.Pointer).Elem().Underlying().(*types.Struct)
-			return "field " + st.Field(fa.Field).Name()
+			return "field:" + st.Field(fa.Field).Name()
 		}
 	case *ssa.Parameter:
-		return "param " + x.Name()
+		return "param:" + x.Name()
 	case *ssa.FreeVar:
-		return "freevar " + x.Name()
+		return "freevar:" + x.Name()
 	}
 	return v.Name()
 }
@@ -325,6 +325,9 @@ func (fr *Frame) afterCall(st *State, name string, res Val) {
 			u.heapSet(st, rn, r.T)
 			fn := fmt.Sprintf("$first:%s:%d", pat, k)
 			u.regHeap(fn, r.S)
+			if r.Ty != nil {
+				u.ghostTy[rn], u.ghostTy[fn] = r.Ty, r.Ty
+			}
 			u.heapSet(st, fn, ite(wasCalled, u.heapCur(st, fn), r.T))
 		}
 	}
@@ -380,6 +383,8 @@ func (fr *Frame) ghostPatterns() []string {
 	all := append([]*Clause{}, fr.fc.Requires...)
 	all = append(all, fr.fc.Ensures...)
 	all = append(all, fr.fc.AtCalls...)
+	all = append(all, fr.fc.AfterCalls...)
+	all = append(all, fr.fc.Assumes...)
 	for _, v := range fr.fc.Invariants {
 		all = append(all, v...)
 	}
@@ -909,6 +914,7 @@ func (fr *Frame) preRegisterGhosts() {
 							if _, ok := u.heapSort[g]; !ok {
 								u.regHeap(g, srt)
 							}
+							u.ghostTy[g] = res.At(k).Type()
 						}
 					}
 				}
